@@ -32,6 +32,7 @@ type SolverStats struct {
 	CacheHits int
 	Seconds   float64
 	Errors    int
+	ModelSeconds float64
 	Fallbacks int
 	FallbackDecided int
 }
@@ -46,6 +47,7 @@ type Solver struct {
 	Stats   SolverStats
 	log     io.Writer
 	dead    bool
+	quietErrors bool
 }
 
 func solverArgv(name string, timeoutMs int) []string {
@@ -212,7 +214,9 @@ func (s *Solver) Query(asserts []*Term, raw []string, vars []*Term) (SatResult, 
 				}
 				fmt.Fprintf(&sb, "(declare-fun %s (%s) %s)\n", smtName(x.Name), strings.Join(as, " "), x.Sort)
 			}
-			fmt.Fprintf(&sb, "(define-fun t%d () %s %s)\n", x.id, x.Sort, smtNode(x, nameOf))
+			// declare + definitional equality rather than define-fun: z3 expands
+			// define-fun macros into trees, losing the DAG sharing (measured 50x)
+			fmt.Fprintf(&sb, "(declare-const t%d %s)\n(assert (= t%d %s))\n", x.id, x.Sort, x.id, smtNode(x, nameOf))
 			defined[x.id] = true
 		}
 	}
@@ -281,6 +285,153 @@ func (s *Solver) Query(asserts []*Term, raw []string, vars []*Term) (SatResult, 
 	return res, m
 }
 
+// ---------------------------------------------------------------- incremental session
+//
+// A second solver process per worker is used in push/pop mode with a short
+// soft timeout: cheap branch-feasibility queries cost ~1 ms there because the
+// path condition is asserted (and bit-blasted) once per path; anything it
+// cannot decide quickly goes to the one-shot Query above.
+
+type IncSession struct {
+	s        *Solver
+	level    int
+	defined  map[int]bool
+	declared map[string]bool
+	flushed  int
+	Hits     int
+	Misses   int
+}
+
+func NewIncSession(tt *TermTable, softMs int) (*IncSession, error) {
+	s, err := NewSolver("z3", tt, softMs)
+	if err != nil {
+		return nil, err
+	}
+	s.quietErrors = true
+	return &IncSession{s: s, defined: map[int]bool{}, declared: map[string]bool{}}, nil
+}
+
+// Begin starts a fresh path scope.
+func (x *IncSession) Begin() {
+	if x.s.dead {
+		x.s.restart()
+		x.level = 0
+	}
+	if x.level > 0 {
+		x.s.send(fmt.Sprintf("(pop %d)", x.level))
+	}
+	x.s.send("(push 1)")
+	x.level = 1
+	x.defined = map[int]bool{}
+	x.declared = map[string]bool{}
+	x.flushed = 0
+}
+
+func (x *IncSession) emit(sb *strings.Builder, t *Term) string {
+	nameOf := func(a *Term) string {
+		switch a.Op {
+		case OConst:
+			return constSMT(a)
+		case OVar:
+			return smtName(a.Name)
+		}
+		return fmt.Sprintf("t%d", a.id)
+	}
+	type item struct {
+		t    *Term
+		done bool
+	}
+	stack := []item{{t, false}}
+	for len(stack) > 0 {
+		it := stack[len(stack)-1]
+		stack = stack[:len(stack)-1]
+		y := it.t
+		if y.Op == OConst || x.defined[y.id] {
+			continue
+		}
+		if y.Op == OVar {
+			if !x.declared[y.Name] {
+				x.declared[y.Name] = true
+				fmt.Fprintf(sb, "(declare-const %s %s)\n", smtName(y.Name), y.Sort)
+			}
+			continue
+		}
+		if !it.done {
+			stack = append(stack, item{y, true})
+			for _, a := range y.A {
+				stack = append(stack, item{a, false})
+			}
+			continue
+		}
+		if y.Op == OUF && !x.declared["uf:"+y.Name] {
+			x.declared["uf:"+y.Name] = true
+			var as []string
+			for _, a := range y.A {
+				as = append(as, a.Sort.String())
+			}
+			fmt.Fprintf(sb, "(declare-fun %s (%s) %s)\n", smtName(y.Name), strings.Join(as, " "), y.Sort)
+		}
+		fmt.Fprintf(sb, "(declare-const t%d %s)\n(assert (= t%d %s))\n", y.id, y.Sort, y.id, smtNode(y, nameOf))
+		x.defined[y.id] = true
+	}
+	return nameOf(t)
+}
+
+// Check decides pc ∧ c quickly or answers Unknown.
+func (x *IncSession) Check(pc []*Term, c *Term, vars []*Term) (SatResult, Model) {
+	s := x.s
+	if s.dead {
+		x.Begin()
+	}
+	if x.flushed > len(pc) {
+		x.Begin()
+	}
+	var sb strings.Builder
+	for ; x.flushed < len(pc); x.flushed++ {
+		n := x.emit(&sb, pc[x.flushed])
+		fmt.Fprintf(&sb, "(assert %s)\n", n)
+	}
+	if c != nil {
+		n := x.emit(&sb, c)
+		fmt.Fprintf(&sb, "(push 1)\n(assert %s)\n", n)
+	}
+	sb.WriteString("(check-sat)")
+	s.send(sb.String())
+	wd := time.AfterFunc(time.Duration(s.timeout)*time.Millisecond+2*time.Second, func() {
+		if s.cmd != nil && s.cmd.Process != nil {
+			s.cmd.Process.Kill()
+		}
+	})
+	t0 := time.Now()
+	res := s.readResult()
+	wd.Stop()
+	s.Stats.Seconds += time.Since(t0).Seconds()
+	var m Model
+	if res == Sat {
+		var vs []*Term
+		for _, v := range vars {
+			if x.declared[v.Name] {
+				vs = append(vs, v)
+			}
+		}
+		t1 := time.Now()
+		m = s.getModel(vs)
+		s.Stats.ModelSeconds += time.Since(t1).Seconds()
+	}
+	if c != nil && !s.dead {
+		s.send("(pop 1)")
+	}
+	if s.dead {
+		res = Unknown
+	}
+	if res == Unknown {
+		x.Misses++
+	} else {
+		x.Hits++
+	}
+	return res, m
+}
+
 var noFallback = os.Getenv("VERIF_NO_FALLBACK") != ""
 
 func fallbackCVC5(text string, vs []*Term, timeoutMs int) (SatResult, Model) {
@@ -338,12 +489,16 @@ func (s *Solver) readResult() SatResult {
 			return Unknown
 		case strings.HasPrefix(l, "(error"):
 			s.Stats.Errors++
-			fmt.Fprintf(os.Stderr, "solver %s: %s\n", s.name, l)
-			if s.dead {
-				return Unknown
+			if !s.quietErrors {
+				fmt.Fprintf(os.Stderr, "solver %s: %s\n", s.name, l)
 			}
-			// an error makes the answer inconclusive; drain until the result line
-			continue
+			// an error makes the answer inconclusive and the stream position
+			// uncertain: give up on this process
+			if s.cmd != nil && s.cmd.Process != nil {
+				s.cmd.Process.Kill()
+			}
+			s.dead = true
+			return Unknown
 		case l == "":
 			if s.dead {
 				return Unknown
